@@ -226,7 +226,29 @@ func c16Edit(o *mc.Explorer, p *gen.Program) (string, bool) {
 			varASlots = append(varASlots, s)
 		}
 	}
-	switch o.Choose(5) {
+	switch o.Choose(6) {
+	case 5: // a surplus argument that is a variable (declared or not) in some call
+		var calls []*gen.Call
+		for _, d := range p.Vars {
+			if d.Origin != nil {
+				calls = append(calls, d.Origin)
+			}
+		}
+		for _, st := range p.Stmts {
+			if c, ok := st.(*gen.Call); ok {
+				calls = append(calls, c)
+			}
+		}
+		if len(calls) == 0 {
+			return "", false
+		}
+		c := calls[o.Choose(len(calls))]
+		names := []string{"zz"}
+		for _, d := range p.Vars {
+			names = append(names, d.Name.Name)
+		}
+		c.Args = append(c.Args, gen.V(names[o.Choose(len(names))]))
+		return "surplus-arg-var", true
 	case 0: // delete a declaration
 		if len(p.Vars) == 0 {
 			return "", false
